@@ -236,4 +236,216 @@ Section MerkleProofs.
       + destruct (compute_from_raunts _ _ _ _ _); [|discriminate]. injection E as <-. apply H_len.
   Qed.
 
+
+  Lemma items_cases (items : list bytes) :
+    items = [] \/ (exists x, items = [x]) \/ 2 <= length items.
+  Proof.
+    destruct items as [|x [|y r]]; [left; reflexivity|right; left; eexists; reflexivity|].
+    right; right; cbn; lia.
+  Qed.
+
+  (* Membership: whatever total/index/aunts the proof carries, if the computed
+     hash equals the root of [items] then the proven leaf is one of the items. *)
+  Lemma cfr_member raunts : forall items i t y l,
+    compute_from_raunts H i t (leaf_hash y) raunts = Some l -> l = root items ->
+    In y items \/ collision.
+  Proof.
+    induction raunts as [|a rest IH]; intros items i t y l E R; cbn [compute_from_raunts] in E.
+    - destruct (_ || _ || _)%bool; [discriminate|]. destruct (t =? 1)%Z; [|discriminate].
+      injection E as <-.
+      destruct (items_cases items) as [->|[[x ->]|L2]].
+      + rewrite root_nil in R. unfold Merkle.leaf_hash, Merkle.empty_hash in R.
+        right. eexists _, _. split; [|exact R]. discriminate.
+      + rewrite root_one in R. unfold Merkle.leaf_hash in R.
+        destruct (hash_eq_dec _ _ R) as [e|c]; [|right; exact c].
+        injection e as ->. left. left. reflexivity.
+      + rewrite root_eq in R by exact L2. unfold Merkle.leaf_hash, Merkle.inner_hash in R.
+        right. eexists _, _. split; [|exact R]. discriminate.
+    - destruct (_ || _ || _)%bool; [discriminate|]. destruct (t =? 1)%Z; [discriminate|].
+      assert (E2 : exists l1 r1, l = inner_hash l1 r1 /\
+                 ((exists i' t', compute_from_raunts H i' t' (leaf_hash y) rest = Some l1) \/
+                  (exists i' t', compute_from_raunts H i' t' (leaf_hash y) rest = Some r1))).
+      { destruct (i <? _)%Z.
+        - destruct (compute_from_raunts H i _ _ rest) as [l'|] eqn:E'; [|discriminate].
+          injection E as <-. exists l', a. split; [reflexivity|]. left. eauto.
+        - destruct (compute_from_raunts H _ _ _ rest) as [r'|] eqn:E'; [|discriminate].
+          injection E as <-. exists a, r'. split; [reflexivity|]. right. eauto. }
+      clear E. destruct E2 as (l1 & r1 & -> & E2).
+      destruct (items_cases items) as [->|[[x ->]|L2]].
+      + rewrite root_nil in R. unfold Merkle.inner_hash, Merkle.empty_hash in R.
+        right. eexists _, _. split; [|exact R]. discriminate.
+      + rewrite root_one in R. unfold Merkle.inner_hash, Merkle.leaf_hash in R.
+        right. eexists _, _. split; [|exact R]. discriminate.
+      + rewrite root_eq in R by exact L2.
+        set (k := split_nat (length items)) in *.
+        destruct E2 as [(i' & t' & E')|(i' & t' & E')].
+        * apply inner_hash_inj in R.
+          2:{ left. rewrite root_len. eapply cfr_len; [|exact E']. apply H_len. }
+          destruct R as [[R1 _]|c]; [|right; exact c].
+          destruct (IH _ _ _ _ _ E' R1) as [I|c]; [|right; exact c].
+          left. rewrite <- (firstn_skipn k items). apply in_or_app. left. exact I.
+        * apply inner_hash_inj in R.
+          2:{ right. rewrite root_len. eapply cfr_len; [|exact E']. apply H_len. }
+          destruct R as [[_ R2]|c]; [|right; exact c].
+          destruct (IH _ _ _ _ _ E' R2) as [I|c]; [|right; exact c].
+          left. rewrite <- (firstn_skipn k items). apply in_or_app. right. exact I.
+  Qed.
+
+  (* Position: if additionally the proof's total is the length of the list,
+     the index is the position of the leaf. *)
+  Lemma cfr_index raunts : forall items i y l,
+    compute_from_raunts H i (Z.of_nat (length items)) (leaf_hash y) raunts = Some l ->
+    l = root items ->
+    ((0 <= i < Z.of_nat (length items))%Z /\ nth_error items (Z.to_nat i) = Some y) \/ collision.
+  Proof.
+    induction raunts as [|a rest IH]; intros items i y l E R; cbn [compute_from_raunts] in E.
+    - destruct (_ || _ || _)%bool eqn:Bad; [discriminate|].
+      destruct (Z.of_nat (length items) =? 1)%Z eqn:T1; [|discriminate].
+      injection E as <-.
+      destruct (items_cases items) as [->|[[x ->]|L2]]; [cbn in T1; lia| |lia].
+      rewrite root_one in R. unfold Merkle.leaf_hash in R.
+      destruct (hash_eq_dec _ _ R) as [e|c]; [|right; exact c].
+      injection e as ->. left. cbn [length] in *. split; [lia|].
+      replace (Z.to_nat i) with 0 by lia. reflexivity.
+    - destruct (_ || _ || _)%bool eqn:Bad; [discriminate|].
+      destruct (Z.of_nat (length items) =? 1)%Z eqn:T1; [discriminate|].
+      assert (L2 : 2 <= length items) by lia.
+      destruct (split_nat_bounds (length items) L2) as [A B].
+      rewrite root_eq in R by exact L2. rewrite split_Z_nat in E.
+      set (k := split_nat (length items)) in *.
+      assert (Lf : length (firstn k items) = k) by (rewrite firstn_length; lia).
+      assert (Ls : length (skipn k items) = length items - k) by (rewrite skipn_length; lia).
+      destruct (Z.ltb_spec i (Z.of_nat k)) as [Hik|Hik].
+      + destruct (compute_from_raunts H i _ _ rest) as [l'|] eqn:E'; [|discriminate].
+        injection E as <-.
+        apply inner_hash_inj in R.
+        2:{ left. rewrite root_len. eapply cfr_len; [|exact E']. apply H_len. }
+        destruct R as [[R1 _]|c]; [|right; exact c].
+        rewrite <- Lf in E' at 1.
+        destruct (IH _ _ _ _ E' R1) as [[Rg I]|c]; [|right; exact c].
+        left. split; [lia|].
+        rewrite <- (firstn_skipn k items). rewrite nth_error_app1 by lia. exact I.
+      + destruct (compute_from_raunts H _ _ _ rest) as [r'|] eqn:E'; [|discriminate].
+        injection E as <-.
+        apply inner_hash_inj in R.
+        2:{ right. rewrite root_len. eapply cfr_len; [|exact E']. apply H_len. }
+        destruct R as [[_ R2]|c]; [|right; exact c].
+        replace (Z.of_nat (length items) - Z.of_nat k)%Z with (Z.of_nat (length (skipn k items))) in E' by lia.
+        destruct (IH _ _ _ _ E' R2) as [[Rg I]|c]; [|right; exact c].
+        left. split; [lia|].
+        rewrite <- (firstn_skipn k items). rewrite nth_error_app2 by lia.
+        rewrite Lf. replace (Z.to_nat i - k) with (Z.to_nat (i - Z.of_nat k)) by lia. exact I.
+  Qed.
+
+  Lemma verify_ok_inv rh p leaf :
+    verify H (Some rh) p leaf = MOk ->
+    p_leaf_hash p = leaf_hash leaf /\
+    compute_from_raunts H (p_index p) (p_total p) (leaf_hash leaf) (rev (p_aunts p)) = Some rh.
+  Proof.
+    unfold verify, compute_root_hash. intros V.
+    destruct (p_total p <? 0)%Z; [discriminate|]. destruct (p_index p <? 0)%Z; [discriminate|].
+    destruct (bytes_eqb (p_leaf_hash p) (leaf_hash leaf)) eqn:LE; [|discriminate].
+    apply bytes_eqb_eq in LE. rewrite LE in V. cbn [negb] in V.
+    destruct (compute_from_raunts _ _ _ _ _) as [c|]; [|discriminate].
+    destruct (bytes_eqb c rh) eqn:CE; [|discriminate]. apply bytes_eqb_eq in CE. subst c.
+    split; [exact LE|reflexivity].
+  Qed.
+
+  Lemma map_H_inj (a : list bytes) : forall b, map H a = map H b -> a = b \/ collision.
+  Proof.
+    induction a as [|x a IH]; intros [|y b] E; cbn in E; try discriminate; [left; reflexivity|].
+    injection E as E1 E2.
+    destruct (hash_eq_dec _ _ E1) as [->|c]; [|right; exact c].
+    destruct (IH _ E2) as [->|c]; [left; reflexivity|right; exact c].
+  Qed.
+
+  Lemma In_map_H (tx : bytes) (txs : list bytes) : In (H tx) (map H txs) -> In tx txs \/ collision.
+  Proof.
+    intros I. apply in_map_iff in I as (x & E & I).
+    destruct (hash_eq_dec _ _ E) as [->|c]; [left; exact I|right; exact c].
+  Qed.
+
+  (* proof_sound (membership, nothing assumed about total/index): a proof that
+     VerifyTransaction accepts against the transaction root of [txs] is for a
+     transaction of [txs]. *)
+  Theorem proof_sound_member_l (txs : list bytes) (p : option proof) (tx : bytes) :
+    verify_tx H p (Some (tx_root H txs)) tx = MOk -> In tx txs \/ collision.
+  Proof.
+    unfold verify_tx, verify_item. destruct p as [p|]; [|discriminate]. intros V.
+    apply verify_ok_inv in V as [_ C].
+    destruct (cfr_member _ _ _ _ _ _ C eq_refl) as [I|c]; [|right; exact c].
+    apply In_map_H. exact I.
+  Qed.
+
+  (* proof_sound (position): if moreover the proof's total is the number of
+     transactions, its index is the position of the transaction. *)
+  Theorem proof_sound_l (txs : list bytes) (p : proof) (tx : bytes) :
+    verify_tx H (Some p) (Some (tx_root H txs)) tx = MOk ->
+    p_total p = Z.of_nat (length txs) ->
+    ((0 <= p_index p < Z.of_nat (length txs))%Z /\ nth_error txs (Z.to_nat (p_index p)) = Some tx)
+    \/ collision.
+  Proof.
+    unfold verify_tx, verify_item. intros V T.
+    apply verify_ok_inv in V as [_ C]. rewrite T in C.
+    rewrite <- (map_length H txs) in C.
+    destruct (cfr_index _ _ _ _ _ C eq_refl) as [[Rg I]|c]; [|right; exact c].
+    rewrite map_length in Rg. rewrite nth_error_map in I.
+    destruct (nth_error txs (Z.to_nat (p_index p))) as [t|] eqn:N; [|discriminate].
+    cbn in I. injection I as I.
+    destruct (hash_eq_dec _ _ I) as [->|c]; [left; split; [exact Rg|reflexivity]|right; exact c].
+  Qed.
+
+  (* Without the premise on total the index is NOT bound (the Go comment says
+     "Check sp.Index/sp.Total manually if needed"): in a 3-leaf tree the third
+     leaf also verifies as index 1 of 2. Holds for every H. *)
+  Theorem index_not_bound_without_total_l (a b c : bytes) :
+    verify H (Some (root [a; b; c]))
+      (mkProof 2 1 (leaf_hash c) [inner_hash (leaf_hash a) (leaf_hash b)]) c = MOk.
+  Proof.
+    unfold verify, compute_root_hash. cbn [p_total p_index p_leaf_hash p_aunts rev app].
+    rewrite bytes_eqb_refl.
+    change (compute_from_raunts H 1 2 (leaf_hash c) [inner_hash (leaf_hash a) (leaf_hash b)])
+      with (Some (inner_hash (inner_hash (leaf_hash a) (leaf_hash b)) (leaf_hash c))).
+    change (root [a; b; c]) with (inner_hash (inner_hash (leaf_hash a) (leaf_hash b)) (leaf_hash c)).
+    cbv iota beta. rewrite bytes_eqb_refl. reflexivity.
+  Qed.
+
+  (* ---------- the root binds the list, including its length ---------- *)
+  Lemma root_inj_n n : forall xs ys,
+    length xs < n -> root xs = root ys -> xs = ys \/ collision.
+  Proof.
+    induction n as [|n IH]; intros xs ys Ln R; [lia|].
+    destruct (items_cases xs) as [->|[[x ->]|Lx]]; destruct (items_cases ys) as [->|[[y ->]|Ly]];
+      rewrite ?root_nil, ?root_one in R;
+      try rewrite (root_eq xs) in R by exact Lx; try rewrite (root_eq ys) in R by exact Ly;
+      unfold Merkle.empty_hash, Merkle.leaf_hash in R.
+    - left; reflexivity.
+    - right. eexists _, _. split; [|exact R]. discriminate.
+    - unfold Merkle.inner_hash in R. right. eexists _, _. split; [|exact R]. discriminate.
+    - right. eexists _, _. split; [|exact R]. discriminate.
+    - destruct (hash_eq_dec _ _ R) as [e|c]; [|right; exact c]. injection e as ->. left; reflexivity.
+    - unfold Merkle.inner_hash in R. right. eexists _, _. split; [|exact R]. discriminate.
+    - unfold Merkle.inner_hash in R. right. eexists _, _. split; [|exact R]. discriminate.
+    - unfold Merkle.inner_hash in R. right. eexists _, _. split; [|exact R]. discriminate.
+    - apply inner_hash_inj in R; [|left; rewrite !root_len; reflexivity].
+      destruct R as [[R1 R2]|c]; [|right; exact c].
+      destruct (split_nat_bounds (length xs) Lx) as [A B].
+      apply IH in R1; [|rewrite firstn_length; lia].
+      apply IH in R2; [|rewrite skipn_length; lia].
+      destruct R1 as [R1|c]; [|right; exact c]. destruct R2 as [R2|c]; [|right; exact c].
+      left. rewrite <- (firstn_skipn (split_nat (length xs)) xs), R1, R2. apply firstn_skipn.
+  Qed.
+
+  (* merkle_root_injective: equal roots -> equal lists (the LENGTH is bound
+     too, through the 0x00 / 0x01 / empty-string domain separation: no premise
+     on the lengths is needed) or a collision of H is exhibited. *)
+  Theorem merkle_root_injective_l (xs ys : list bytes) : root xs = root ys -> xs = ys \/ collision.
+  Proof. apply (root_inj_n (S (length xs))). lia. Qed.
+
+  Theorem tx_root_injective_l (txs1 txs2 : list bytes) :
+    tx_root H txs1 = tx_root H txs2 -> txs1 = txs2 \/ collision.
+  Proof.
+    unfold tx_root. intros R. apply merkle_root_injective_l in R as [E|c]; [|right; exact c].
+    apply map_H_inj. exact E.
+  Qed.
 End MerkleProofs.
